@@ -32,8 +32,8 @@ def execute(case):
     for k in range(1, NCALLS + 1):
         nodes = W.walk_args(c.args, c.kwargs)
         pre = snapshot(nodes, intern)
-        events.append({"id": "%s/c%d" % (tr, k), "tr": tr, "ev": "Call", "entry": case["entry"], "opt": c.opt,
-                       "kind": case["kind"], "dtype": case["dtype"], "decl": decl, "slots": pre})
+        events.append({"id": "%s/c%d" % (tr, k), "tr": tr, "ev": "Call", "entry": e.key, "opt": c.opt,
+                       "kind": case["kind"], "dtype": case["dtype"], "decl": decl, "forms": list(c.forms), "slots": pre})
         how, val = L.invoke(c)
         reach = {p: o for p, kk, o in W.walk_args(c.args, c.kwargs)}
         slots = []
@@ -107,13 +107,17 @@ def run(chk, opts):
     chk.add_cases(cases)
     results = execute_cases(execute, cases, repo=chk.repo, chunksize=4)
     events = flatten(results)
+    if "entries" not in opts:       # full run: the spec checks that every declared argument form was exercised
+        seen = sorted({f for e in events if e.get("ev") == "Call" for f in e["forms"]})
+        events.append({"id": "forms", "tr": "~forms", "ev": "Forms", "forms": seen})
+        chk.notes["arg_forms_exercised"] = seen
     good = [e for e in events if "ev" in e]
     chk.rule = ("every case of the entry-point registry (%d entries x argument kinds x dtypes %s = %d cases), each called %d times on "
                 "the same argument objects; one trace per case; distinct = distinct (entry, kind)" % (
                     len({c["entry"] for c in cases}), "/".join(dtypes), len(cases), NCALLS))
     for c in cases:
         chk.distinct.add((c["entry"], c["kind"]))
-    exits = [e for e in good if e["ev"] != "Call"]
+    exits = [e for e in good if e["ev"] in ("Return", "Raise")]
     chk.notes["exits"] = {"return": sum(e["ev"] == "Return" for e in exits), "raise": sum(e["ev"] == "Raise" for e in exits)}
     chk.notes["unexpected_exit_kind"] = sorted({e["tr"] for e in exits if (e["ev"] == "Raise") != (e["expect"] == "raise")})[:40]
     chk.notes["slots_digested"] = sum(len(e["slots"]) for e in good if e["ev"] == "Call")
